@@ -173,7 +173,7 @@ def t_composer():
 		Deflate.encode = classmethod(orig)
 	if calls == [Body.MAX_CHUNK_SIZE, 5]:
 		out.append(defn('CODING_VARIANT', 'variant', 'AsFound'))
-	elif calls == [Body.MAX_CHUNK_SIZE + 5, 0]:
+	elif calls == [Body.MAX_CHUNK_SIZE + 5]:
 		out.append(defn('CODING_VARIANT', 'variant', 'Repaired'))
 	else:
 		raise ValueError('coding probe: Deflate.encode was called with lengths %r' % (calls,))
